@@ -919,6 +919,11 @@ func (cfg *Config) quotedElemFields(pe *syntax.ParamExp) ([]string, error) {
 			return nil, err
 		}
 		if star {
+			if len(elems) == 0 {
+				// "$*" without any elements is an empty string rather than
+				// a list: "$*" is then an empty field, and "$*$@" no field.
+				return nil, nil
+			}
 			return []string{cfg.ifsJoin(elems)}, nil
 		}
 		if elems == nil {
